@@ -7,6 +7,7 @@
 package httpMiddleware
 
 import (
+	"bytes"
 	"io"
 	"log/slog"
 	"net/http"
@@ -42,6 +43,9 @@ func getRequestBodyAsString(r *http.Request) (string, error) {
 
 	//nolint:errcheck // skip error in defer
 	defer r.Body.Close()
+
+	// the body can be read only once: hand what was read back to the request so the next handler sees it too
+	r.Body = io.NopCloser(bytes.NewReader(bodyBytes))
 
 	bodyString := string(bodyBytes)
 	return bodyString, nil
